@@ -440,6 +440,18 @@ pub fn generate_c05(a: &Args) {
     for name in ARITHS.iter() {
         with_arith!(*name, ar => c05_type(&mut out, &mut rng, name, &mut ar, th));
     }
+    // ONE quantiser for the sixteen 8-bit variants ("the 8-bit variants quantise channel LLRs as round(8*llr)"), symmetric about zero:
+    // at exact ties the statement fixes no direction (both neighbours are accepted above), but every variant must take the same one
+    let names8: Vec<&str> = ARITHS.iter().copied().filter(|n| is_i8(n)).collect();
+    let mut xs: Vec<f64> = vec![0.0625, 0.1875, 0.3125, 15.8125, 15.9375, 15.6875, 1.0 / 16.0 + 1e-17, 7.5, 0.03, 1e-30, 1e30];
+    let mut j = -131i64;
+    while j <= 131 { xs.push((j as f64 + 0.5) / 8.0); j += if th { 1 } else { 3 }; }
+    for _ in 0..(if th { 3000 } else { 200 }) { xs.push(rng.gauss() * 6.0); }
+    for x in xs {
+        out.new_case();
+        let q = |v: f64| -> Vec<i64> { names8.iter().map(|name| with_arith!(*name, ar => guarded(|| call_quant(&mut ar, v)).map(|g| g as i64).unwrap_or(-999))).collect() };
+        out.ev("QuantFam", "ok", json!({"names": names8, "got": q(x), "neg": q(-x), "dbg": format!("{x:e}")}));
+    }
 }
 
 fn c05_type<A: DecoderArithmetic>(out: &mut Out, rng: &mut Rng, name: &str, ar: &mut A, th: bool)
